@@ -374,6 +374,7 @@ func checkEquals(a, b *ref.T) core.Verdict {
 /* ---------------- C04 ---------------- */
 
 func checkC04(c *core.Ctx) {
+	defer specialC04(c)
 	defer sweepC04(c)
 	defer scalingCases(c, "Dot", "MatMul", "Transpose")
 	defer sidefxCases(c, "Dot", "MatMul", "Transpose")
